@@ -239,3 +239,7 @@ M("c10-lazy-chars", "C10", "decoder/bds/bds08.py", '    chars = "#ABCDEFGHIJKLMN
   '    chars = callsign.__dict__.setdefault("tbl", [])\n    if not chars:\n        for ch in "#ABCDEFGHIJKLMNOPQRSTUVWXYZ#####_###############0123456789######":\n            chars.append(ch)\n            chars[0:0] = []\n    chars = chars + ["#"] * (64 - len(chars))\n')
 M("c01-lazy-gen", "C01", "py_common.py", '    G = [int("11111111", 2), int("11111010", 2), int("00000100", 2), int("10000000", 2)]\n',
   '    G = crc.__dict__.setdefault("gen", [])\n    if not G:\n        for g in ("11111111", "11111010", "00000100", "10000000"):\n            G.append(sum(int(c) << (7 - i) for i, c in enumerate(g)))\n    G = G + [0] * (4 - len(G))\n')
+
+# ---- added with round 9 of the seeded changes (oracles that had asserted less than the property)
+M("c06-87-gives-1", "C06", "py_common.py", "    elif np.isclose(abs(lat), 87):\n        return 2", "    elif np.isclose(abs(lat), 87):\n        return 1 if abs(lat) == 87 else 2")
+M("c13-hdg-360", "C13", "decoder/bds/bds62.py", "hdg = (hdg_sign * 256 + common.bin2int(mb[31:39])) * (180 / 256)", "hdg = (hdg_sign * 256 + common.bin2int(mb[31:39])) * (180 / 256) or 360.0")
